@@ -20,6 +20,8 @@ def main(tier):
     rep.floor("A1", n1, 8, "debug-only assertions in parse-time code examined (debug view)")
     asserts.input_indexed_elements(P, rep)
     asserts.schema_required(P, rep)
+    asserts.schema_closed(P, rep)
+    asserts.schema_keys(P, rep)
     asserts.dead_checks(P, rep)
     asserts.string_dispatch(P, rep)
     guard.input_gates(P, rep)
